@@ -9,7 +9,7 @@ func PlanFor(prop, tier string) (*Plan, error) {
 	quick := tier != "thorough"
 	capS := 600
 	if quick {
-		capS = 100
+		capS = 140
 	}
 	p := &Plan{Prop: prop, Tier: tier, Level: "model_checking", TimeCapS: capS, PrefixDepth: 2,
 		Assume: []string{trustNote, "values outside the stated alphabets and budgets are not covered"}}
